@@ -136,6 +136,12 @@ def run(run, P):
             return [e]
         if t.get('k') == 'call' and t.get('fn') == 'coap_cancel_all_messages':
             seen['cancel'] += 1
+            # an ACK retires the request whose message id it carries (RFC 7252 4.2), never "whatever has the same token"
+            okc = ts.get('tack0') != 'ack'
+            run.oblige('R-RESP', okc, 'ack-does-not-cancel-by-token')
+            if not okc:
+                viol(ev, 'ack-cancels-by-token', 'coap_cancel_all_messages() is reached on a path that knows the received message to be an ACK: a late or duplicated piggy-backed response '
+                     'whose message id matches nothing stops the retransmission of a NEW request that re-uses the token - that request is lost without an outcome', ctx)
             e = apply_generic(ev, env, R).copy()
             e.ts['cancel'] = 1
             return [e]
